@@ -93,7 +93,7 @@ def build(spec):
                 p['method'] = 'fmt_m'
             if c == 'l':
                 p['method'] = 'fmt_nl'
-            f = F(f'Val<{idc}>', S.FNAMES[i] if v['kind'] == 'named' else None, **({'Debug': p} if p else {}))
+            f = F(f'Val<{idc}>', S.fname(i, k, len(v['fields'])) if v['kind'] == 'named' else None, **({'Debug': p} if p else {}))
             f.code = c
             f.vid = idc
             idc += 1
